@@ -29,7 +29,8 @@ ASSUMPTIONS = [
     "copula margins: a-priori slack max(|l_k|, r_k) * sum_{j != k} nu_j(outside [l_j, r_j]); finite-variation copulas only",
 ]
 REQUIRED_COUNTERS = ["mean_comparisons", "diffusion_comparisons", "variance_bound_checks", "representations_set",
-                     "nd_margin_mean_comparisons"]
+                     "nd_margin_mean_comparisons", "nd_diffusion_comparisons", "nd_central_cell_second_moments",
+                     "nd_central_cell_second_moments_decisive", "nd_central_cell_cross_moments"]
 MIN_NONTRIVIAL = {"quick": 60, "thorough": 400}
 SHARD_TIMEOUT = {"quick": 900, "thorough": 7200}
 REPS = ["native", "ZERO", "CENTER", "ONEONE", "TILDE"]
@@ -72,6 +73,27 @@ def gen_cases(tier, seed):
         if ctor in ("geometric", "geometric_bounds"):
             g["n_side"] = int(rng.integers(2, 6 if dim == 2 else 4))
         cases.append({"model": cm, "rep": REPS[j % 5], "grid": g, "level": int(j % 2) if dim == 2 else 0, "method": "INVERSION"})
+    # infinite-variation copula chains (2-d, uniform grid: the central cell is (-h/2, h/2]^2): one or both margins with 1 < y < 2
+    for j in range(3 if not thorough else 24):
+        fams = [["CGMY", "CGMY"], ["CGMY", "VG"], ["HEM", "CGMY"], ["CGMY", "MERTON"]][j % 4]
+        cm = W.gen_copula_model_spec(rng, dim=2, kind=["clayton", "clayton", "dependent", "independent"][j % 4], families=fams, exp=bool(j % 2))
+        iv_done = False
+        for ms in cm["margins"]:
+            if ms["family"] == "CGMY" and (not iv_done or rng.random() < 0.5):
+                ms["params"]["y"] = W.r6(rng.uniform(1.05, 1.7))
+                ms["params"]["c"] = W.r6(rng.uniform(0.3, 3.0))     # a central-cell variance well above the code's own quadrature accuracy
+                ms["branch"] = "1<y<2"
+                iv_done = True
+            elif ms["family"] == "CGMY":
+                ms["params"]["y"] = W.r6(rng.uniform(0.05, 0.7))
+                ms["branch"] = "0<y<1"
+            if ms["family"] == "MERTON":
+                ms["params"]["mu_j"] = min(ms["params"]["mu_j"], 0.05)
+                ms["params"]["sigma_j"] = max(ms["params"]["sigma_j"], 0.08)
+        g = G.gen_grid_spec(rng, "fixed", 2)
+        g["n"] = int(rng.integers(5, 10))
+        g["h"] = W.r6(W._logu(rng, 0.03, 0.2))
+        cases.append({"model": cm, "rep": ["native", "ONEONE", "CENTER", "TILDE"][j % 4], "grid": g, "level": int(j % 2), "method": "INVERSION", "iv": True})
     return cases
 
 
@@ -314,5 +336,86 @@ def _run_nd(case, R):
             R.violation(f"nd-margin-mean-{reps[k]}", f"{label}/{ctor}: margin {k} ({W.model_label(ms)}, declared {reps[k]}): chain mean "
                         f"{got!r} vs truncated margin mean {want!r}; admissible slack (mass outside the box) {slack!r}",
                         {"model": cm, "grid": g, "margin": k})
+    _nd_diffusion(R, cm, model, proc, grid, label, ctor, {"model": cm, "grid": g})
     R.nontrivial_case(label, cm, rep_req, {k: v for k, v in g.items() if not k.startswith("_")}, lev)
     R.sample({"copula_model": label, "reps": reps, "grid": g, "process_drift": pd.tolist()})
+
+
+def _nd_diffusion(R, cm, model, proc, grid, label, ctor, wit):
+    """variance matrix of the Brownian part of a copula chain: diag(sigma_k^2), plus -- for an infinite-variation model -- the second
+    moments of the jumps inside the central cell.  Oracle for the central cell (uniform grid, cell (-h/2, h/2]^d): layer-cake formula
+    int x_i^2 dnu = 2 int_0^{h/2} s nu(x_i > s, x in cell) ds + (negative side) on the harness corner-sum masses."""
+    from scipy.integrate import quad
+
+    D = np.asarray(proc._path_simulation.diffusion_matrix, dtype=float)
+    d = model.dimension()
+    var = D @ D.T
+    sig2 = np.array([float(m.diffusion_coefficient()) ** 2 for m in model.models])
+    R.hit("nd_diffusion_comparisons")
+    if bool(model.jump_of_finite_variation()):
+        if not np.allclose(var, np.diag(sig2), rtol=1e-10, atol=1e-14):
+            R.violation("nd-diffusion-finite-variation", f"{label}/{ctor}: finite variation but the variance matrix of the Brownian part is {var.tolist()}, "
+                        f"diag(sigma^2) = {sig2.tolist()}", wit)
+        return
+    if ctor != "fixed" or d != 2:
+        R.skip("nd-central-cell-oracle-only-for-uniform-2d-grids")
+        return
+    h = float(grid.h)
+    half = min(h / 2, 1.0)
+    oracle = C.CopulaMassOracle(cm, model.copula, model.models, [(-math.inf, math.inf)] * d)
+    for k in range(d):
+        other = 1 - k
+
+        def layer(s, sgn):
+            a, b = [0.0] * d, [0.0] * d
+            a[other], b[other] = -half, half
+            if sgn > 0:
+                a[k], b[k] = s, half
+            else:
+                a[k], b[k] = -half, -s
+            return s * oracle.mass(a, b)
+
+        tot, err = 0.0, 0.0
+        for sgn in (1, -1):
+            v, e = quad(layer, 0.0, half, args=(sgn,), limit=200, epsabs=1e-10, epsrel=1e-8)
+            tot += 2 * v
+            err += 2 * e
+        want = sig2[k] + tot
+        # the code asks its own quadrature for an absolute accuracy of 1e-3 on an integral it then multiplies by 2 / h^(d-1)
+        tol = 1e-3 * 2 / h ** (d - 1) + 1e-6 * want + 10 * err + 100 * oracle.max_err * h
+        R.hit("nd_central_cell_second_moments")
+        if tol < 0.25 * tot:
+            R.hit("nd_central_cell_second_moments_decisive")
+        if not (abs(var[k, k] - want) <= tol):
+            R.violation("nd-diffusion-infinite-variation", f"{label}/{ctor} (h = {h}): variance of the Brownian part of margin {k} = {float(var[k, k])!r}, "
+                        f"sigma^2 + second moment of the jumps inside the central cell = {want!r} (layer-cake quadrature +-{err:.1e}; "
+                        f"marginal bound {float(model.models[k].levy_triplet.nu.integrate_against_xx(-half, half))!r})", wit)
+    # off-diagonal entry: int x_0 x_1 dnu over the central cell = sum over the four quadrants of (+-) int int nu(quadrant corner box) ds_0 ds_1
+    def cross(swap):
+        """adaptive (QUADPACK) integration per quadrant; the two orders of integration use different node sets"""
+        from scipy.integrate import dblquad
+
+        tot = 0.0
+        for p in (1, -1):
+            for q in (1, -1):
+                def f(s_in, s_out, p=p, q=q):
+                    s0, s1 = (s_in, s_out) if swap else (s_out, s_in)
+                    a = [s0 if p > 0 else -half, s1 if q > 0 else -half]
+                    b = [half if p > 0 else -s0, half if q > 0 else -s1]
+                    return p * q * oracle.mass(a, b)
+
+                tiny = 1e-9 * half
+                if oracle.mass([tiny if p > 0 else -half, tiny if q > 0 else -half], [half if p > 0 else -tiny, half if q > 0 else -tiny]) == 0.0:
+                    continue        # no mass in this quadrant (eta in {0, 1}, dependent / independent components)
+                tot += dblquad(f, 0.0, half, 0.0, half, epsabs=1e-6, epsrel=1e-6)[0]
+        return tot
+
+    c1, c2 = cross(False), cross(True)
+    errc = abs(c2 - c1)
+    tolc = 1e-3 / h ** (d - 2) + 1e-6 * abs(c2) + 10 * errc
+    R.hit("nd_central_cell_cross_moments")
+    if not (abs(var[0, 1] - c2) <= tolc and abs(var[1, 0] - c2) <= tolc):
+        R.violation("nd-diffusion-infinite-variation-cross-term", f"{label}/{ctor} (h = {h}): covariance of the Brownian parts = {float(var[0, 1])!r}, "
+                    f"cross moment of the jumps inside the central cell = {c2!r} (adaptive quadrature of the layer-cake integrand; other order of integration: {c1!r})", wit)
+    if tolc < 0.25 * abs(c2):
+        R.hit("nd_central_cell_cross_moments_decisive")
